@@ -25,8 +25,8 @@ package absnfs
 //@ func NFSProcedureHandler.handleAccess
 //@ prop C12
 //@ requires srvOK(h) && reply != nil && authCtx != nil
-//@ loop 1 invariant !isGroupMember && authCtx != nil && authCtx.AuthSys != nil && 0 <= rangeindex + 1 && rangeindex + 1 <= len(authCtx.AuthSys.AuxGIDs)
-//@ loop 1 invariant forall(j, 0, rangeindex + 1, authCtx.AuthSys.AuxGIDs[j] != fileGid)
+//@ loop 1 invariant authCtx != nil && authCtx.AuthSys != nil && 0 <= rangeindex + 1 && rangeindex + 1 <= len(authCtx.AuthSys.AuxGIDs)
+//@ loop 1 invariant isGroupMember <==> exists(j, 0, rangeindex + 1, authCtx.AuthSys.AuxGIDs[j] == fileGid)
 //@ loop 1 invariant fileMode == attrs.Mode && fileUid == attrs.Uid && fileGid == attrs.Gid && effectiveUID == authCtx.EffectiveUID && effectiveGID == authCtx.EffectiveGID && attrs != nil
 // intermediate step (keeps each query small): the class bits chosen are the specification's
 //@ callassert atomic.Pointer.Load : [perm-class] permBits == permClass(attrs.Mode, attrs.Uid, attrs.Gid, authCtx.EffectiveUID, authCtx.EffectiveGID, inAuxGroups(authCtx, attrs.Gid)) && isDir == (attrs.Mode & os.ModeDir != 0) && accessAllowed < 64
